@@ -41,12 +41,23 @@ def gen_portable_case(rng) -> dict:
     H = _H()
     spec = H.gen_spec(rng)
     nv = rng.choice([1, 1, 2, 3])
+    import math
+    # values that need 16-17 significant digits (quotients, sums like 0.1+0.2, irrational constants): the round trip is exact
+    fine_r = [1 / 3, 0.1 + 0.2, 2 / 3, -1 / 7, math.sqrt(2) / 2, 0.7 / 3]
+    fine_c = [7 / 3, math.pi / 2, -math.e / 3, 0.1 + 0.7, 1e-3 / 3]
     vals = []
     for _ in range(nv):
         v = H.initial_values(spec, rng)
+        for n in list(v):
+            if rng.chance(0.5):
+                v[n] = rng.choice(fine_r) if n.startswith("r") else (rng.choice(fine_c) if n.startswith("c") else rng.choice([0.1, 1 / 9, 0.0]))
         for n in H.variable_names(spec):
             if rng.chance(0.5):
                 v[n] = rng.choice([0.5, 1.0, 2.0])
+        if rng.chance(0.5):
+            v["std_e1"] = math.sqrt(2) / 10        # ignored by assign when the model has no such std
+        if rng.chance(0.3):
+            v["std_w1"] = 1 / 30
         vals.append(v)
     return {"kind": "portable", "spec": spec, "values": vals, "steady": rng.chance(0.4), "json": rng.chance(0.4),
             "desc": rng.choice(["", "", "Model A", "x y"])}
@@ -98,7 +109,7 @@ def portable_case(ctx: Ctx, case: dict):
         fields = ["flags"]          # everything else (std_ names, default stds, ...) is downstream of the lost flags
     for f in fields:
         if want[f] != got[f]:
-            site = "portable-flags" if f == "flags" else "portable-roundtrip-" + f.replace("_", "-")
+            site = {"flags": "portable-flags", "parameters": "portable-values-not-exact"}.get(f, "portable-roundtrip-" + f.replace("_", "-"))
             ctx.fail(site, case, f"{f}: {want[f]!r} became {got[f]!r} after from_portable(to_portable(m))" + (" via JSON" if case.get("json") else ""))
     if want["num_variants"] > 1 and any("e" in n for n in want["names"]):
         ctx.nontriv("portable:" + json.dumps(case["spec"], sort_keys=True) + str(want["num_variants"]))
